@@ -63,7 +63,7 @@ def grid(res):
     res.sample({"grid": "k in 0..2890 x dt in {0,1,thr-1,thr,thr+1,9,10,11,1799,1800,1801,1e7}", "constants": consts})
 
 
-def long_dead_peer(mode, rounds=None, bystander=False):
+def long_dead_peer(mode, rounds=None, bystander=False, announce=False):
     """One outgoing address that never greets -- it refuses every connection / answers every connection with garbage / hangs
     up at once -- for the node's WHOLE retry schedule with the real constants (2,881 attempts; the k-th wait is
     min(10 s * 2^k, 30 min), about two months of virtual time).  The manager is stepped one second before and exactly at the
@@ -132,13 +132,27 @@ def long_dead_peer(mode, rounds=None, bystander=False):
             by.deliver()
             if not any(isinstance(m, M.PeersMessage) for _h, m in by.received[m0:]):
                 unserved += 1
-    return {"attempts": attempts, "early": early, "late": late, "escaped": list(net.escaped), "limit": limit, "unserved": unserved,
+    # after the node has given the address up, a well-behaved peer ANNOUNCES it again and a week passes: still no further attempt
+    after = None
+    if announce and not net.escaped:
+        from ipaddress import IPv6Address
+        n_before = len(attempts)
+        ann = simnet.Wire(net, node, host="10.0.0.30")
+        ann.greet(nonce=88)
+        ann.send(M.PeersMessage([M.Peer(0, IPv6Address("::FFFF:10.0.0.77"), 2412)]))
+        ann.deliver()
+        for _ in range(30):
+            simnet.CLOCK.now += 6 * 3600
+            net.step(node)
+            settle()
+        after = len(attempts) - n_before
+    return {"attempts": attempts, "early": early, "late": late, "escaped": list(net.escaped), "limit": limit, "unserved": unserved, "after_announcement": after,
             "ban_score": max([p.ban_score for p in node.nm.disconnected_peers.values()] + [0])}
 
 
 def run_long(res, tier, seed):
     for mode in (["refuse"] if tier == "quick" else ["refuse", "garbage", "close"]):
-        out = long_dead_peer(mode)
+        out = long_dead_peer(mode, announce=True)
         res.evaluations += len(out["attempts"])
         res.disjoint += len(out["attempts"])
         res.count("long_schedule_attempts:" + mode, len(out["attempts"]))
@@ -152,7 +166,10 @@ def run_long(res, tier, seed):
             res.fail("backoff", "retry-too-early", "a peer that never greets (%s): attempt #%d came before %d s had passed since the previous one" % (mode, k + 1, need), case)
         if len(out["attempts"]) > out["limit"] + 1:
             res.fail("backoff", "retry-beyond-give-up", "a peer that never greets (%s) was tried %d times; the configured number of failures is %d" % (mode, len(out["attempts"]), out["limit"]), case)
-        if len(out["attempts"]) < out["limit"] + 1:
+        if out.get("after_announcement"):
+            res.fail("backoff", "retry-beyond-give-up:after-announcement", "a peer that never greets (%s) was given up after %d attempts; after another peer announced the same address again it was dialled %d more times" % (
+                mode, out["limit"] + 1, out["after_announcement"]), case)
+        if len(out["attempts"]) - (out.get("after_announcement") or 0) < out["limit"] + 1:
             res.fail("backoff", "gave-up-early-or-late-retry", "a peer that never greets (%s) was tried only %d times when stepped at the earliest permitted moments (configured failures: %d; first missing attempt #%s)" % (
                 mode, len(out["attempts"]), out["limit"], out["late"][:1]), case)
     res.sample({"long_schedule": "one address that never greets, stepped through the complete retry schedule with the real constants"})
@@ -280,6 +297,27 @@ class Exec:
                     self.fail("crash", "crash-leaves-corrupt-peer-file", "crash at step %d of write_peers: peers.json is not valid JSON" % kstep)
                 elif rows != new_rows and rows != old_rows:
                     self.fail("crash", "crash-leaves-mixed-peer-file", "crash at step %d of write_peers: peers.json is neither the old nor the new list" % kstep)
+                elif rows != "missing":
+                    # ... and the NEXT START (load_peers) finds that list -- it neither falls back to the download nor damages the file
+                    net_calls = []
+                    real_net = self.DI.load_peers_from_network
+                    self.DI.load_peers_from_network = lambda: net_calls.append(1) or []
+                    try:
+                        with env.quiet():
+                            loaded = self.DI.DiskInterface().load_peers()
+                        got = {(h, p, d) for (h, p, d) in loaded.keys()}
+                    except Exception as e:
+                        got = None
+                        self.fail("crash", "restart-after-crash-cannot-load-peers", "crash at step %d of write_peers, then the next start: load_peers raised %s" % (kstep, type(e).__name__))
+                    finally:
+                        self.DI.load_peers_from_network = real_net
+                    rows2 = self.read_file()
+                    self.flags["restarts_after_crash"] = self.flags.get("restarts_after_crash", 0) + 1
+                    if got is not None and (net_calls or got not in ({tuple(r) for r in new_rows}, {tuple(r) for r in (old_rows or [])})):
+                        self.fail("crash", "restart-after-crash-loses-peer-list", "crash at step %d of write_peers, then the next start: load_peers %s" % (
+                            kstep, "found no usable peers.json and fell back to downloading a list" if net_calls else "returned neither the old nor the new list"))
+                    if rows2 != rows:
+                        self.fail("crash", "restart-after-crash-changes-peer-file", "crash at step %d of write_peers, then the next start changed peers.json (now %s)" % (kstep, rows2 if isinstance(rows2, str) else "%d rows" % len(rows2)))
                 for n in os.listdir("."):
                     if os.path.isfile(n):
                         os.remove(n)
